@@ -128,7 +128,13 @@ let go_fmt_e_shortest (neg : bool) (d : Stdlib.String.t) (e10 : int) : Stdlib.St
   Buffer.add_string b (string_of_int a);
   Buffer.contents b
 
-let no_frac (f : float) = Float.is_integer f
+(* ugorji's noFrac64: integral AND below 2^52 (unbiased exponent < 52) *)
+let no_frac (f : float) =
+  let bits = Int64.bits_of_float f in
+  if bits = 0L then true
+  else
+    let e = Int64.to_int (Int64.logand (Int64.shift_right_logical bits 52) 0x7FFL) - 1023 in
+    e >= 0 && e < 52 && Int64.shift_left bits (12 + e) = 0L
 
 (* jsonFloatStrconvFmtPrec64 + strconv.AppendFloat; finite floats only *)
 let fprint_go (bits : n) : byte list =
@@ -143,9 +149,10 @@ let fprint_go (bits : n) : byte list =
   bytes_of_string s
 
 let fparse_go (tok : byte list) : n option =
+  (* strconv.ParseFloat reports a range error for text that overflows binary64 *)
   match float_of_string_opt (string_of_bytes tok) with
-  | Some f -> Some (n_of_int64 (Int64.bits_of_float f))
-  | None -> None
+  | Some f when Float.is_finite f -> Some (n_of_int64 (Int64.bits_of_float f))
+  | _ -> None
 
 (* ---------- Coq strings ---------- *)
 let ascii_of_char (c : char) : ascii =
@@ -348,6 +355,12 @@ let handle (b : Buffer.t) (op : Stdlib.String.t) (args : Stdlib.String.t list) :
     let (m, _) = parse_msg a in
     let (m', _) = parse_msg c in
     Buffer.add_string b (if roundtrip_ok fm m m' then "true" else "false")
+  | "rtv", f :: rest ->
+    let fm = format_of f in
+    let (a, c) = split_semicolon rest in
+    let (v, _) = parse_value2 a in
+    let (v', _) = parse_value2 c in
+    Buffer.add_string b (if value_roundtrip_ok fm v v' then "true" else "false")
   | "canon", f :: rest ->
     let fm = format_of f in
     let (m, _) = parse_msg rest in
@@ -355,7 +368,7 @@ let handle (b : Buffer.t) (op : Stdlib.String.t) (args : Stdlib.String.t list) :
   | "canonv", f :: rest ->
     let fm = format_of f in
     let (v, _) = parse_value2 rest in
-    Buffer.add_string b "ok "; print_value b (value_norm (canon fm v))
+    Buffer.add_string b "ok "; print_value b (canon fm v)
   | "diag", [f; h] ->
     (* why the intended model rejects what the implementation accepted: the
        first item that is not compatible with its field, or a non-list *)
